@@ -139,7 +139,15 @@ class Check(BaseCheck):
             rec.violation('C07/law:trichotomy:' + m, a=a, b=b, injected=how, got=got)
         if got['<='] != (got['<'] or got['=']) or got['>='] != (got['>'] or got['=']) or got['<>'] != (not got['=']):
             rec.violation('C07/law:derived-relations:' + m, a=a, b=b, injected=how, got=got)
-        # (ii) ranking model
+        # (ii) ranking model (serials before 1 March 1900 are the library's own: such dates are ranked against dates, text, logicals
+        #      and blanks by the model, against numbers only the laws above apply)
+        early = [isinstance(x, datetime.datetime) and x < MARCH1 for x in (a, b)]
+        isnumber = [isinstance(x, (int, float)) and not isinstance(x, bool) for x in (a, b)]
+        if (early[0] and (isnumber[1] or b is None)) or (early[1] and (isnumber[0] or a is None)):
+            rec.count('ranking_not_judged_early_1900_date_vs_number')
+            rec.cov('class_pairs', (GV.broad_class(a), GV.broad_class(b)))
+            rec.nt((repr(a), repr(b), how))
+            return got
         exp = model(a, b)
         if got != exp:
             rec.violation('C07/ranking:' + m, a=a, b=b, injected=how, got=got, expected=exp)
@@ -150,12 +158,13 @@ class Check(BaseCheck):
 
     def pool(self, rnd, n):
         vals = [0, 1, -1, 1.0, 0.0, True, False, None, '', 'a', 'A', '2', '10', 'TRUE', datetime.datetime(2019, 11, 20), 43789, 43789.5,
-                datetime.datetime(2019, 11, 20, 12, 0, 0), datetime.datetime(1900, 3, 1), 61, datetime.datetime(9999, 12, 31), -2.5, 'abc', 'abd']
+                datetime.datetime(2019, 11, 20, 12, 0, 0), datetime.datetime(1900, 3, 1), 61, datetime.datetime(9999, 12, 31), -2.5, 'abc', 'abd',
+                datetime.datetime(1900, 1, 1), datetime.datetime(1900, 1, 2), datetime.datetime(1900, 2, 28), datetime.datetime(1900, 2, 28, 12, 0), datetime.datetime(1900, 1, 31, 6, 30)]
         classes = GV.SCALAR_CLASSES
-        while len(vals) < n + 24:
+        while len(vals) < n + 29:
             vals.append(GV.gen(rnd, rnd.choice(classes)))
         rnd.shuffle(vals)
-        return vals[:max(n, 24)]
+        return vals[:max(n, 29)]
 
     def pairs(self, spec, rec):
         rnd = self.rng(spec)
